@@ -192,6 +192,12 @@ def run(ctx):
         if r.violated is None:
             raise Broken("model cannot tell '%s' from the property (vacuous I=>P check): %r" % (what, r))
 
+    # (1b) thorough: unbounded-time argument for the arithmetic core - Apalache discharges the inductive invariant of
+    #      ThrottleInd (Init => IndInv; IndInv /\ Next => IndInv') for all instants, window lengths and limits; the strict
+    #      reset test of the pinned commit must NOT be inductive. A stall / tool failure only loses the note, never the verdict.
+    if T:
+        apalache_step(ctx, sd)
+
     seen = set()
     # (2) spec -> code: TLC-generated behaviours of P, replayed; real outcomes must equal the spec's
     n = 100 if not T else 1000    # each walk is printed once per successor of its last state (~9x)
@@ -237,6 +243,33 @@ def run(ctx):
         if not rej:
             raise Broken("self-test: corrupted trace accepted")
         ctx.notes.append("self-test: corrupted verdict rejected=%s, dropped pass event rejected=%s" % (bool(rej), bool(rej2)))
+
+
+def apalache_step(ctx, sd):
+    import subprocess, shutil
+    d = os.path.join(ctx.scratch, "apalache")
+    os.makedirs(d, exist_ok=True)
+    shutil.copy(os.path.join(sd, "ThrottleInd.tla"), d)
+    res = {}
+    for name, args in (("base", ["--cinit=CInit", "--init=Init", "--length=0"]),
+                       ("step", ["--cinit=CInit", "--init=IndInit", "--length=1"]),
+                       ("strict-step", ["--cinit=CInitStrict", "--init=IndInit", "--length=1"])):
+        try:
+            p = subprocess.run(["timeout", "300", "apalache-mc", "check", "--inv=IndInv"] + args + ["ThrottleInd.tla"],
+                               cwd=d, stdout=subprocess.PIPE, stderr=subprocess.STDOUT, text=True)
+            res[name] = "ok" if "EXITCODE: OK" in p.stdout else ("violated" if "EXITCODE: ERROR (12)" in p.stdout else "failed")
+        except Exception as e:
+            res[name] = "failed"
+    ctx.cov["apalache_inductive"] = res
+    if res.get("base") == "ok" and res.get("step") == "ok" and res.get("strict-step") == "violated":
+        ctx.cov["obligations"] = 2
+        ctx.cov["discharged"] = 2
+        ctx.notes.append("Apalache: IndInv of ThrottleInd (Bound and Exact of one key, unbounded clock / window length / limit) is inductive "
+                         "for the repaired reset test and not inductive for the strict one")
+    elif res.get("step") == "violated" or res.get("base") == "violated":
+        raise Broken("Apalache refutes the inductive invariant of ThrottleInd: %s" % res)
+    else:
+        ctx.notes.append("Apalache step not completed (%s): nothing is claimed from it" % res)
 
 
 def replay(ctx, path):
